@@ -93,11 +93,36 @@ func randUniprotDoc(r *rand.Rand, n int, small bool) ([]upEntry, string) {
 			sb.WriteString(" xmlns=\"http://uniprot.org/uniprot\"")
 		}
 		sb.WriteString(">\n")
+		// the same text can be spelled in several ways in XML: plain, as a CDATA section, with a numeric
+		// character reference, with a comment in the middle; end tags may hold white space
+		spell := func(t string) string {
+			switch r.Intn(8) {
+			case 0:
+				return "<![CDATA[" + t + "]]>"
+			case 1:
+				return fmt.Sprintf("&#x%X;", t[0]) + t[1:]
+			case 2:
+				return fmt.Sprintf("&#%d;", t[0]) + t[1:]
+			case 3:
+				k := r.Intn(len(t) + 1)
+				return t[:k] + "<!-- " + gen.RandWordAlnum(r, 5) + " -->" + t[k:]
+			}
+			return t
+		}
+		endTag := func(name string) string {
+			if r.Intn(6) == 0 {
+				return "</" + name + " >"
+			}
+			return "</" + name + ">"
+		}
+		if r.Intn(5) == 0 {
+			sb.WriteString("  <!-- entry " + fmt.Sprint(i) + " of " + fmt.Sprint(n) + " -->\n")
+		}
 		for _, a := range e.Acc {
-			sb.WriteString("  <accession>" + a + "</accession>\n")
+			sb.WriteString("  <accession>" + spell(a) + endTag("accession") + "\n")
 		}
 		for _, nm := range e.Names {
-			sb.WriteString("  <name>" + nm + "</name>\n")
+			sb.WriteString("  <name>" + spell(nm) + endTag("name") + "\n")
 		}
 		if !small || r.Intn(2) == 0 {
 			sb.WriteString("  <protein>\n    <recommendedName>\n      <fullName>Protein " + gen.RandWordAlnum(r, 6) + " &amp; co</fullName>\n    </recommendedName>\n  </protein>\n")
@@ -109,7 +134,13 @@ func randUniprotDoc(r *rand.Rand, n int, small bool) ([]upEntry, string) {
 			}
 			sb.WriteString("  <proteinExistence type=\"inferred from homology\"/>\n")
 		}
-		fmt.Fprintf(&sb, "  <sequence length=\"%d\" mass=\"%d\" checksum=\"%016X\" modified=\"%s\" version=\"1\">%s</sequence>\n</entry>\n", len(e.Seq), 110*len(e.Seq), r.Uint64(), upDate(r), e.Seq)
+		fmt.Fprintf(&sb, "  <sequence length=\"%d\" mass=\"%d\" checksum=\"%016X\" modified=\"%s\" version=\"1\">%s</sequence>\n</entry>\n", len(e.Seq), 110*len(e.Seq), r.Uint64(), upDate(r), spell(e.Seq))
+		if r.Intn(6) == 0 {
+			sb.WriteString("<!-- between entries -->\n")
+		}
+		if r.Intn(12) == 0 {
+			sb.WriteString("<?harness between entries?>\n")
+		}
 	}
 	if r.Intn(2) == 0 {
 		sb.WriteString("<copyright>\nCopyrighted by the UniProt Consortium\n</copyright>\n")
